@@ -1,12 +1,3 @@
 package main
 
-import "verif/sim/spec"
-
-func cmdBuildTest() int                   { return 0 }
-func checkC10(o checkOpts) int            { return 2 }
-func checkDisk(o checkOpts, p string) int { return 2 }
-func checkC17(o checkOpts) int            { return 2 }
-func cmdSelftest(args []string) int       { return 2 }
-func replayC10(rp *spec.Replay) bool      { return false }
-func replayDisk(rp *spec.Replay) bool     { return false }
-func replayC17(rp *spec.Replay) bool      { return false }
+func cmdBuildTest() int { return 0 }
